@@ -284,9 +284,10 @@ func vpEvalBinNum(op SyntaxKind, a, b *decimal.Big) (*decimal.Big, bool) {
 }
 
 func vpSymInt(name string, bits int) int64 {
-	v := vpInt64(name)
+	// a (bits+1)-bit symbolic value shifted to [-2^bits, 2^bits): keeps the solver's multipliers narrow
 	lim := int64(1) << uint(bits)
-	vpAssume(v > -lim && v < lim)
+	v := int64(vpBits(name, bits+1)) - lim
+	vpAssume(v > -lim)
 	return v
 }
 
@@ -294,7 +295,11 @@ func vpSymInt(name string, bits int) int64 {
 func VP_C18_bits() {
 	B := vpParam("B")
 	a, b := vpSymInt("a", B), vpSymInt("b", B)
-	ba, bb := new(decimal.Big).SetMantScale(a, 0), new(decimal.Big).SetMantScale(b, 0)
+	// the same integers may be held as coefficient x 10^k with k > 0 (1e3, 12e2)
+	K := vpParam("K")
+	ka, kb := vpChoice("ka", K+1), vpChoice("kb", K+1)
+	ba, bb := new(decimal.Big).SetMantScale(a, -ka), new(decimal.Big).SetMantScale(b, -kb)
+	a, b = a*vpPow10[ka], b*vpPow10[kb]
 	switch vpChoice("op", 4) {
 	case 0:
 		r, ok := vpEvalBinNum(SK_Ampersand, ba, bb)
